@@ -44,11 +44,46 @@ def target_base():
     return os.path.join(C.BUILD, "cfgmatrix-alt", hashlib.sha1(d.encode()).hexdigest()[:12])
 
 
+def _rrtk_path(pkg):
+    import re
+    m = re.search(r'rrtk\s*=\s*\{[^}]*path\s*=\s*"([^"]+)"', open(os.path.join(pkg, "Cargo.toml")).read())
+    return m.group(1) if m else C.REPO
+
+
+def _tree_stamp(root):
+    """(path, mtime, size) of every source the seven builds read; the matrix only means something if
+    all seven were compiled from the same tree."""
+    h = hashlib.sha1()
+    for sub in ("Cargo.toml", "src"):
+        p = os.path.join(root, sub)
+        if os.path.isfile(p):
+            st = os.stat(p)
+            h.update(f"{p}:{st.st_mtime_ns}:{st.st_size};".encode())
+        for d, _, fs in sorted(os.walk(p)):
+            for f in sorted(fs):
+                try:
+                    st = os.stat(os.path.join(d, f))
+                except OSError:
+                    h.update(f"{d}/{f}:gone;".encode())
+                    continue
+                h.update(f"{d}/{f}:{st.st_mtime_ns}:{st.st_size};".encode())
+    return h.hexdigest()
+
+
 def build_all():
     """Seven builds in parallel; any failure => Inconclusive."""
     pkg, base = crate_dir(), target_base()
     if not os.path.exists(os.path.join(pkg, "Cargo.toml")):
         raise C.Inconclusive(f"cfgmatrix crate not found at {pkg}")
+    repo = _rrtk_path(pkg)
+    before = _tree_stamp(repo)
+    bins, secs = _build_all(pkg, base)
+    if _tree_stamp(repo) != before:
+        raise C.Inconclusive(f"the rrtk sources under {repo} changed while the seven configurations were being built; the traces would not be comparable")
+    return bins, secs
+
+
+def _build_all(pkg, base):
 
     def one(name):
         profile, feats, _, _ = CONFIGS[name]
@@ -272,18 +307,25 @@ def chunk_job(job):
                 dev = 0.0 if (a != a and b != b) else float("inf")
             else:
                 dev = abs(a - b) / _ulp(mag)
-            worst = max(worst, dev)
+            if dev > worst:
+                worst = dev
+                res.setdefault("pdev_tag", {})[key] = (dev, x[1])
             if dev > P_TOL_ULP:
                 viol(f"C19/P-line-deviates/{_sigtag(x[1])}",
                      f"seed={seed} program={x[0]} {x[1]}: {REF}={a!r} [{xa[0]}] {name}={b!r} [{ya[0]}] deviate by {dev:.1f} ulp of magnitude {mag!r} (tolerance {P_TOL_ULP})", x[0])
         res["pdev"][key] = worst
-    # ---- class S: the in-build EWMA law
+    # ---- class S: in-build checks (EWMA law with the build's own powf; purity of powf; EWMA twins)
     for name in ORDER:
         s = tr[name]["S"]
         res["lines"]["S"] += len(s)
         for p in s:
             if not p[3].startswith("ok"):
-                viol(f"C19/ewma-law/{name}", f"seed={seed} program={p[0]} {p[1]}: EWMA output is not prev*(1-L)+new*L with L from the build's own powf: {p[3]}", p[0])
+                if p[1].endswith(".law"):
+                    viol(f"C19/ewma-law/{name}", f"seed={seed} program={p[0]} {p[1]}: EWMA output is not prev*(1-L)+new*L with L from the build's own powf: {p[3]}", p[0])
+                else:
+                    # .pure: a value read in a sequence differs from what a fresh stream returns for the same
+                    # operands in isolation; .twin: an EWMA updated alternately with another differs from its twin
+                    viol(f"C19/self-consistency/{p[1]}/{name}", f"seed={seed} program={p[0]} {p[1]}: the build disagrees with itself (value in the sequence vs same operands in isolation / twin updated alone): {p[3]}", p[0])
         if len(s) != len(ref["S"]) and tr[name]["E"] == ref["E"]:
             viol(f"C19/S-line-sequence/{REF}-vs-{name}", f"seed={seed} programs {first}..{first+count}: {len(ref['S'])} vs {len(s)} EWMA law checks", first)
     # ---- class U: ill-dimensioned operations in the unchecked builds
@@ -349,6 +391,7 @@ def run(prop, spec, tier, seed, v):
 
     lines = {"E": 0, "P": 0, "S": 0, "C": 0, "U": 0}
     pdev, ill, ill_by_cfg, trace_lines, distinct = {}, 0, {}, 0, set()
+    pdev_tag = {}
     reasons = []
     for r in results:
         reasons.extend(r["inconclusive"])
@@ -359,6 +402,9 @@ def run(prop, spec, tier, seed, v):
             lines[k] += r["lines"][k]
         for k, d in r["pdev"].items():
             pdev[k] = max(pdev.get(k, 0.0), d)
+        for k, (d, tag) in r.get("pdev_tag", {}).items():
+            if d >= pdev_tag.get(k, (-1.0, ""))[0]:
+                pdev_tag[k] = (d, tag)
         ill += r["ill_ops"]
         for k, n in r["ill_by_cfg"].items():
             ill_by_cfg[k] = ill_by_cfg.get(k, 0) + n
@@ -384,6 +430,7 @@ def run(prop, spec, tier, seed, v):
         "trace_lines_read": trace_lines,
         "lines_compared_by_class": lines,
         "max_P_deviation_ulp_of_magnitude": {k: (round(d, 3) if d != float("inf") else "inf") for k, d in sorted(pdev.items())},
+        "max_P_deviation_tag": {k: t for k, (d, t) in sorted(pdev_tag.items()) if d > 0},
         "P_tolerance_ulp": P_TOL_ULP,
         "ill_dimensioned_operations_executed": ill,
         "ill_dimensioned_by_configuration": ill_by_cfg,
